@@ -3,7 +3,7 @@
    atomic accesses (loads, stores, CAS, TryLock/Lock/Unlock, one buffer pop), every executor
    submission being a new task thread.
 
-   Proved here for ANY number of writers and explicit CleanUp callers, every task they spawn, and
+   Proved here for ANY number of writers, readers and explicit CleanUp callers, every task they spawn, and
    EVERY schedule (theories/DrainInv.v): C14_no_stranding_any_population — when nothing can move any
    more, every thread has finished, the write buffer is empty, the drain status is idle and the
    eviction lock is free.  The proof is an inductive invariant over counts of threads per program
@@ -39,6 +39,13 @@ Theorem C14_no_stranding_any_population : forall w c sched,
   let s := run_sched (dinit w c) sched in terminal s = true -> drained s = true.
 Proof. exact drained_any_population. Qed.
 Print Assumptions C14_no_stranding_any_population.
+
+(* ... and any number of READERS besides them (afterRead: a reader whose read was buffered schedules a drain
+   only when it sees the status "required"; one that found the read buffer full also when it sees "idle") *)
+Theorem C14_no_stranding_with_readers : forall w c rd rf sched,
+  let s := run_sched (dinitR w c rd rf) sched in terminal s = true -> drained s = true.
+Proof. exact drained_any_population_with_readers. Qed.
+Print Assumptions C14_no_stranding_with_readers.
 
 (* the invariant behind it holds in every reachable configuration: in particular the eviction lock
    has exactly one owner when held and none when free, and a status of "processing" or "required"
